@@ -246,6 +246,6 @@ func TestC02_Random(t *testing.T) {
 		if k++; k%499 == 1 {
 			cov.Sample("c02.roundtrip", c)
 		}
-		judge(rt, "c02.roundtrip", c02Check, c)
+		judgeH(rt, "c02.roundtrip", c02Check, c, l)
 	})
 }
